@@ -709,6 +709,20 @@ def _run_local(case):
                 return "ok " + (str(p) or "_")
             prots, pos = s.translate(complete=False, codon_table=tab[0], met_start=(w[2] == "1"))
             return "ok " + (";".join(f"{p}@{int(a)}-{int(b)}" for p, (a, b) in zip(prots, pos)) or "_")
+        if op == "c_trreg":
+            if table[0] is None:
+                return "ERR:notable"
+            i = int(w[1])
+            if i >= len(regs):
+                return "ERR:noreg"
+            s, _a = regs[i]
+            if w[2] == "1":
+                return "ok " + (str(s.translate(complete=True, codon_table=table[0])) or "_")
+            prots, pos = s.translate(complete=False, codon_table=table[0], met_start=(w[3] == "1"))
+            return "ok " + (";".join(f"{p}@{int(a)}-{int(b)}" for p, (a, b) in zip(prots, pos)) or "_")
+        if op == "rt":          # round trip decode(encode(symbols)) — also for alphabets with duplicate symbols
+            a = A(w[1])
+            return "ok " + a.show(a.alph.decode_multiple(a.alph.encode_multiple(symform(a, _ptoks(w[2]), ""))))
         if op == "c_tr0":
             dna = "" if w[3] == "_" else w[3]
             s = seq.NucleotideSequence(dna)
@@ -1856,11 +1870,11 @@ def reference(ops):
         elif op == "newalph":
             letter, al = alph_of(w[1])
             if not al:
-                e = ("anyerr",)
+                e = ("err", {"ValueError"})         # "Symbol list is empty"
             elif not letter or all(33 <= int(t) <= 126 for t in al):
                 e = ("eq", "ok " + str(len(al)))
             else:
-                e = ("anyerr",)
+                e = ("err", {"ValueError"})         # not printable
         elif op == "common":
             cur = None
             bad = False
@@ -1916,11 +1930,15 @@ def reference(ops):
             codes = _pints(w[3])
             tpos = {t: i for i, t in enumerate(tgt)}
             if not all(s in tpos for s in src):
-                e = ("anyerr",) if tgt[:len(src)] != src else None
+                e = ("err", {"AlphabetError"}) if tgt[:len(src)] != src else None
             elif all(0 <= c < len(src) for c in codes):
                 e = ("eq", "ok " + _ints(tpos[src[c]] for c in codes))      # the symbols are preserved
+            elif tgt[:len(src)] == src:
+                # no mapping necessary: the mapper hands the codes back unchecked; an invalid code stays what it is
+                # (it must never turn into a *different* code), or the call is refused
+                e = ("oneof", {"ok " + _ints(codes), "ERR:IndexError", "ERR:AlphabetError"})
             else:
-                e = None
+                e = ("err", {"IndexError", "AlphabetError"})
         elif op == "s_new":
             letter, al = alph_of(w[1])
             syms = _ptoks(w[2])
@@ -2011,6 +2029,11 @@ def reference(ops):
                     e = ("oneof", {"ERR:AlphabetError", "ok !AlphabetError"})
                     r["syms"] = None
                     r["maybe_unchanged"] = True
+                    if w[2].split("@")[0] == "u8" and len(r["alph"]) <= 256:
+                        # same dtype as the code array: the setter stores the codes as they are (no cast, nothing to wrap)
+                        e = ("eq", "ok !AlphabetError")
+                        r["codes"] = list(codes)
+                        r["maybe_unchanged"] = False
             elif op == "s_setarr" and not poisoned:
                 lo = None if w[2] == "-" else int(w[2])
                 hi = None if w[3] == "-" else int(w[3])
@@ -2122,14 +2145,14 @@ def reference(ops):
             else:
                 offs = sorted(_pints(w[3]))
             if k < 2 or (offs is not None and (len(offs) != k or len(set(offs)) != k or any(o < 0 for o in offs))):
-                e = ("anyerr",)
+                e = ("err", {"ValueError"})
             else:
                 e = ("eq", f"ok {n ** k} {k} {'-' if offs is None else _ints(offs)} {L - k + 1 if offs is None else L - offs[-1]}")
         elif op == "k_fuse2":
             n, k = int(w[1]), int(w[2])
             rows = [[int(x) for x in r.split(".")] for r in w[4].split(";")]
             if k < 2:
-                e = ("anyerr",)
+                e = ("err", {"ValueError"})
             elif all(len(r) == k and all(0 <= c < n for c in r) for r in rows):
                 e = ("eq", "ok " + _ints(sum(c * n ** (k - 1 - j) for j, c in enumerate(r)) for r in rows))
             else:
@@ -2137,7 +2160,7 @@ def reference(ops):
         elif op == "k_splitv":
             n, k, cs = int(w[1]), int(w[2]), _pints(w[3])
             if k < 2:
-                e = ("anyerr",)
+                e = ("err", {"ValueError"})
             elif all(0 <= c < n ** k for c in cs):
                 rows = []
                 for c in cs:
@@ -2152,15 +2175,17 @@ def reference(ops):
         elif op == "k_fuse":
             n, k, codes = int(w[1]), int(w[2]), _pints(w[4])
             if k < 2:
-                e = ("anyerr",)
+                e = ("err", {"ValueError"})
             elif len(codes) == k and all(0 <= c < n for c in codes):
                 e = ("eq", "ok " + str(sum(c * n ** (k - 1 - j) for j, c in enumerate(codes))))
+                if n ** k >= 2 ** 63:      # the k-mer codes do not fit int64: the exact value or a refusal, never a wrapped value
+                    e = ("oneof", {e[1], "ERR:OverflowError", "ERR:ValueError"})
             else:
                 e = ("err", {"AlphabetError"})
         elif op == "k_split":
             n, k, c = int(w[1]), int(w[2]), int(w[3].split(":")[0])
             if k < 2:
-                e = ("anyerr",)
+                e = ("err", {"ValueError"})
             elif 0 <= c < n ** k:
                 ds = []
                 for _ in range(k):
@@ -2178,7 +2203,7 @@ def reference(ops):
             else:
                 offs = sorted(_pints(w[3]))
             if k < 2 or len(offs) != k or len(set(offs)) != k or any(o < 0 for o in offs):
-                e = ("anyerr",)
+                e = ("err", {"ValueError"})
             elif len(codes) < offs[-1] + 1:
                 e = ("err", {"ValueError"})
             else:
@@ -2186,6 +2211,8 @@ def reference(ops):
                 read = {i + o for i in range(n_k) for o in offs}
                 if all(codes[p] < n for p in read):
                     e = ("eq", "ok " + _ints(sum(codes[i + o] * n ** (k - 1 - j) for j, o in enumerate(offs)) for i in range(n_k)))
+                    if n ** k >= 2 ** 63:
+                        e = ("oneof", {e[1], "ERR:OverflowError", "ERR:ValueError"})
                 else:
                     e = ("err", {"AlphabetError"})
         elif op == "k_enc":
@@ -2206,6 +2233,38 @@ def reference(ops):
                 e = ("eq", "ok " + _toks(reversed(ds)))
             else:
                 e = ("err", {"AlphabetError"})
+        elif op == "rt":
+            letter, al = alph_of(w[1])
+            syms = _ptoks(w[2])
+            e = ("eq", "ok " + _toks(syms)) if all(t in al for t in syms) else ("err", {"AlphabetError"})
+        elif op == "c_trreg":
+            i = int(w[1])
+            if table[0] is None:
+                e = ("eq", "ERR:notable")
+            elif i >= len(regs):
+                e = ("eq", "ERR:noreg")
+            elif table[0] == "unknown" or regs[i]["kind"] != 1:
+                e = None
+            else:
+                r = regs[i]
+                d, starts = table[0]
+                if len(r["alph"]) != 4:
+                    e = ("err", {"AlphabetError"})
+                elif r["syms"] is not None:
+                    dna = "".join(chr(int(t)) for t in r["syms"])
+                    if w[2] == "1":
+                        e = ("err", {"ValueError"}) if len(dna) % 3 else ("eq", "ok " + ("".join(d[dna[k:k + 3]] for k in range(0, len(dna), 3)) or "_"))
+                    else:
+                        e = ("eq", _ref_orfs(dna, d, starts, w[3] == "1"))
+                elif r.get("codes") is not None and not r.get("maybe_unchanged"):
+                    n = len(r["codes"])
+                    if w[2] == "1":
+                        # an invalid code is never translated: refusal (length first, then the code)
+                        e = ("err", {"ValueError"}) if n % 3 else ("err", {"AlphabetError"})
+                    else:
+                        e = ("err", {"AlphabetError"}) if n >= 3 else ("eq", "ok _")
+                else:
+                    e = None
         elif op == "c_names":
             e = ("eq", "ok " + ";".join(n.replace(" ", "~") for n in _file_table_names()))
         elif op in ("c_dict", "c_codons", "c_eq2"):
@@ -2240,15 +2299,24 @@ def reference(ops):
                 e = ("eq", _ref_table_line(d, starts))
             else:
                 table[0] = None
-                # a table without start codons is refused by the constructor (numpy broadcast): not a property matter
-                e = ("anyerr",) if (len(aa) != 64 or not all(a in AA for a in aa) or any(len(s) != 3 or any(b not in "ACGT" for b in s) for s in starts)) else None
-                if e is None:
-                    table[0] = "unknown"
+                # the documented constructor contract, in the order the checks are made: start codons of length 3
+                # (ValueError), letters of the start codons (AlphabetError), at least one start codon (ValueError, refused
+                # by numpy broadcasting), amino acid symbols (AlphabetError), all 64 codons present (ValueError)
+                if any(len(x) != 3 for x in starts):
+                    e = ("err", {"ValueError"})
+                elif any(b not in "ACGT" for x in starts for b in x):
+                    e = ("err", {"AlphabetError"})
+                elif not starts:
+                    e = ("err", {"ValueError"})
+                elif not all(a in AA for a in aa):
+                    e = ("err", {"AlphabetError"})
+                else:
+                    e = ("err", {"ValueError"})
         elif op == "c_load":
             t = _file_tables().get(int(w[1]))
             if t is None:
                 table[0] = None
-                e = ("anyerr",)
+                e = ("err", {"ValueError"})
             else:
                 table[0] = t
                 e = ("eq", _ref_table_line(*t))
@@ -2257,7 +2325,7 @@ def reference(ops):
             t = _file_tables().get(tid)
             if t is None:
                 table[0] = None
-                e = ("anyerr",)
+                e = ("err", {"ValueError"})
             else:
                 table[0] = t
                 e = ("eq", _ref_table_line(*t))
@@ -2283,18 +2351,19 @@ def reference(ops):
                     d.update({k: v for k, v in items})
                     table2[0] = (d, list(table[0][1]))
                     e = ("eq", _ref_table_line(*table2[0]))
+                elif any(len(k) != 3 for k, v in items):
+                    e = None        # keys that are not 3 letters long contradict the documented contract
                 else:
-                    e = ("anyerr",)
+                    e = ("err", {"AlphabetError"})
             else:
                 st = _ptoks(w[1])
                 if st and all(len(k) == 3 and all(b in "ACGT" for b in k) for k in st):
                     table2[0] = (table[0][0], st)
                     e = ("eq", _ref_table_line(*table2[0]))
-                elif not st:
-                    e = None
-                    table2[0] = "unknown"
+                elif not st or any(len(k) != 3 for k in st):
+                    e = ("err", {"ValueError"})
                 else:
-                    e = ("anyerr",)
+                    e = ("err", {"AlphabetError"})
         elif op in ("c_tr", "c_get", "c_tr2"):
             if op == "c_tr2":
                 tab = table2[0]
@@ -2342,6 +2411,10 @@ def _classify(op, line, got):
         return "C03/Sequence.code/code-outside-dtype-wraps"
     if w[0] == "s_setarr" and got.startswith("ok") and not got.startswith("ok !"):
         return "C03/Sequence.__setitem__/code-outside-dtype-wraps"
+    if w[0] in ("k_fuse", "k_kmers") and int(w[1]) ** max(int(w[2]), 0) >= 2 ** 63 and got.startswith("ok"):
+        return "C03/KmerAlphabet/alphabet-size-exceeds-int64"
+    if w[0] == "rt" and w[1].startswith("L:") and len(_ptoks(w[1][2:])) > 255 and got.startswith("ok"):
+        return "C03/LetterAlphabet/more-than-255-letters"
     if got.startswith("CRASH"):
         return f"C03/{w[0]}/crash"
     if got.endswith("+MUTATED"):
